@@ -1,1 +1,5 @@
-//! refmodel
+//! refmodel — small, deliberately dumb reference models (the trusted base).
+//!
+//! * [`bv4`] — IEEE 1800-2017 §11 four-state bit-vector algebra.
+
+pub mod bv4;
